@@ -30,14 +30,17 @@ func init() {
 		Exec:        c02})
 }
 
-func c02(r *simk.Run) *simk.Violation {
+func c02(r *simk.Run) *simk.Violation { return buildScenario(r, "C02", 0.3) }
+
+// buildScenario: one BuildBlock on a seeded mempool, re-verified from bytes by a fresh processor.
+func buildScenario(r *simk.Run, prop string, tightP float64) *simk.Violation {
 	c := r.C
 	s := r.NewSim()
 	s.KeepLog = simk.WantLog()
 	var viol *simk.Violation
 	fail := func(class, format string, a ...any) {
 		if viol == nil {
-			viol = &simk.Violation{Class: "C02/" + class, Detail: fmt.Sprintf(format, a...)}
+			viol = &simk.Violation{Class: prop + "/" + class, Detail: fmt.Sprintf(format, a...)}
 		}
 	}
 	var sample map[string]any
@@ -197,7 +200,7 @@ func c02(r *simk.Run) *simk.Violation {
 			parentTxs = append(parentTxs, gens[j].tx)
 			gens[j].note += "already-in-parent "
 		}
-		if c.Bool(0.3) && len(gens) > 0 {
+		if c.Bool(tightP) && len(gens) > 0 {
 			// tight limits: computed from the generated txs' own units so that skip/stop paths fire
 			d := c.Intn(fees.FeeDimensions)
 			var us []uint64
@@ -346,13 +349,13 @@ func c02(r *simk.Run) *simk.Violation {
 		return nil
 	}
 	if s.Hung {
-		return &simk.Violation{Class: "C02/hang", Detail: fmt.Sprintf("block building / verification never returned: parked=[%s]\nsample=%s", s.HangInfo, js(sample))}
+		return &simk.Violation{Class: prop + "/hang", Detail: fmt.Sprintf("block building / verification never returned: parked=[%s]\nsample=%s", s.HangInfo, js(sample))}
 	}
 	// after the run (the restore goroutine ran in the scheduler's epilogue): nothing that was built may still be pooled
 	if built && mp != nil {
 		for _, id := range builtIDs {
 			if mp.Has(context.Background(), id) {
-				return &simk.Violation{Class: "C02/built-tx-still-in-mempool", Detail: fmt.Sprintf("transaction %s is in the built block and still in the mempool after the build finished\nsample=%s", id, js(sample))}
+				return &simk.Violation{Class: prop + "/built-tx-still-in-mempool", Detail: fmt.Sprintf("transaction %s is in the built block and still in the mempool after the build finished\nsample=%s", id, js(sample))}
 			}
 		}
 	}
